@@ -410,6 +410,37 @@ func init() {
 		ex.mapDelete(syncMapOf(ex, a[0]), a[1])
 		return nil
 	})
+	// sync.Pool (single-threaded exploration, no garbage collection): a stack of the values put back, per pool
+	// object; Get pops the value put last, else calls New - what the real pool does for one goroutine
+	reg("(*sync.Pool).Put", func(ex *Exec, fn *ssa.Function, a []Value) Value {
+		key := fmt.Sprintf("syncpool:%p", a[0].(*Value))
+		if x, ok := a[1].(Iface); ok && x.t == nil {
+			return nil
+		}
+		st, _ := ex.ghost[key].([]Value)
+		ex.ghost[key] = append(append([]Value{}, st...), a[1])
+		return nil
+	})
+	reg("(*sync.Pool).Get", func(ex *Exec, fn *ssa.Function, a []Value) Value {
+		recv := a[0].(*Value)
+		key := fmt.Sprintf("syncpool:%p", recv)
+		if st, _ := ex.ghost[key].([]Value); len(st) > 0 {
+			ex.ghost[key] = append([]Value{}, st[:len(st)-1]...)
+			return st[len(st)-1]
+		}
+		// the New field
+		pt := fn.Signature.Recv().Type().(*types.Pointer).Elem().Underlying().(*types.Struct)
+		for i := 0; i < pt.NumFields(); i++ {
+			if pt.Field(i).Name() == "New" {
+				if s, ok := (*recv).(Struct); ok && i < len(s) {
+					if c, isNil := s[i].(*Value); !(isNil && c == nil) && s[i] != nil {
+						return ex.call(s[i])
+					}
+				}
+			}
+		}
+		return Iface{}
+	})
 	reg("(*sync.Once).Do", func(ex *Exec, fn *ssa.Function, a []Value) Value {
 		p := a[0].(*Value)
 		key := fmt.Sprintf("once:%p", p)
